@@ -76,7 +76,9 @@ def correspondence(ctx):
                 if vb is None or len(va) != len(vb):
                     continue
                 scale = 1.0 + max(abs(x) for x in va) if va else 1.0
-                tol = 1e-7 if key[0] in ("chi", "gftau", "susctau") else 2e-8
+                # every run is compared with the partition-free definition within its exact dropped-term budget (collect above);
+                # the pairwise comparison only has to catch partition-dependent errors and must tolerate twice that budget
+                tol = 1e-5 if key[0] in ("chi", "gftau", "susctau") else 2e-6
                 if any(abs(x - y) > tol * scale for x, y in zip(va, vb)):
                     ctx.problem("propfail", "PROPFAIL[C08] %s differs between partitions '%s' and '%s': %s vs %s" % (
                         " ".join(key), scripts[g[0]][-1] and runs[0].script[[l.split()[0] for l in runs[0].script].index("symm")][:40],
